@@ -84,6 +84,21 @@ Theorem C13_swallowed_refuted : forall (S : Type) (w : hworld S) (e : xentry) (p
 Proof. exact @swallowed_no_exit. Qed.
 Print Assumptions C13_swallowed_refuted.
 
+(* which sampler's handler runs: for every list of registrations accepted by the checker (each of
+   SIGTERM / SIGINT / SIGALRM registered, none of them under a condition) and any number of
+   FlowSamplers created one after the other in one process, the installed handler is the safe_exit
+   of the sampler created LAST - the one that is running.  A registration that only fires on a
+   default handler keeps the first sampler's handler (refuted by computation).                    *)
+Theorem C13_handler_is_current : forall regs : list reg,
+  regs_ok regs = true -> forall n s, after_samplers regs (S n) s = Some n.
+Proof. exact regs_sound. Qed.
+Print Assumptions C13_handler_is_current.
+
+Theorem C13_stale_handler_refuted :
+  after_samplers [mkreg STERM true; mkreg SINT true; mkreg SALRM true] 2 STERM = Some 0.
+Proof. exact stale_handler_refuted. Qed.
+Print Assumptions C13_stale_handler_refuted.
+
 (* importance sampler: a forced (non-periodic) checkpoint returns before any file operation, so the
    last iteration-boundary checkpoint is left intact - for every statement list whose first
    non-logging statement is the `periodic is False -> return` guard                              *)
